@@ -255,6 +255,43 @@ def sc_eer_voi(d, n, K, encs, subtract_current):
     d.witness(any(k >= 0 for k in idx), "some_labeled")
 
 
+# ---------------------------------------------------------------- AnnotatorEnsembleClassifier (one member per annotator)
+def sc_annot_ensemble(d, n, A, K, encs, voting):
+    """symbolic run: members are stub classifiers (fitted model = function of their training data, which the ensemble
+    hands over in encoded form); concrete replay: real ParzenWindowClassifier members"""
+    from skactiveml.classifier.multiannotator import AnnotatorEnsembleClassifier
+    idx = [[d.choose(f"label{i}_{a}", [-1] + list(range(K))) for a in range(A)] for i in range(n)]
+    X = d.arr([[d.fl(f"x{i}", lo=-4.0, hi=4.0)] for i in range(n)], shape=(n, 1))
+    Xq = d.arr([[d.fl("q0", lo=-4.0, hi=4.0)]], shape=(1, 1))
+    seed = d.integer("seed", 0, 2 ** 31 - 2)
+    res = []
+    for enc in encs:
+        e = ENC[enc]
+        flat = encode(d, [k for row in idx for k in row], enc)
+        Y = flat.reshape(n, A)
+        if d.sym:
+            members = [(f"m{a}", models.StubClassifier(missing_label=e["missing"], n_classes=K, gen=20 + a)) for a in range(A)]
+        else:
+            from skactiveml.classifier import ParzenWindowClassifier
+            members = [(f"m{a}", ParzenWindowClassifier(missing_label=e["missing"])) for a in range(A)]
+        clf = AnnotatorEnsembleClassifier(estimators=members, classes=e["classes"][:K], missing_label=e["missing"], voting=voting,
+                                          random_state=seed)
+        try:
+            clf.fit(X, Y)
+            res.append((clf.predict_proba(Xq), clf.predict(Xq)))
+        except (core.Unencodable, core.PathAbort):
+            raise
+        except Exception as ex:
+            d.prove(False, "fit_predict_succeed_under_every_encoding", info=dict(encoding=enc, error=repr(ex)[:160]))
+            return
+    for enc, (Pq, pr) in zip(encs[1:], res[1:]):
+        d.prove(d.eq_arr(Pq, res[0][0], 1e-9), "same_probabilities_under_every_encoding", info=dict(encoding=enc))
+        a0 = class_index(d.flat(res[0][1])[0], encs[0], K)
+        a1 = class_index(d.flat(pr)[0], enc, K)
+        d.prove(a0 is not None and a0 == a1, "predictions_are_reencoded_originals", info=dict(encoding=enc, first=a0, other=a1))
+    d.witness(any(k >= 0 for row in idx for k in row), "some_labeled")
+
+
 # ---------------------------------------------------------------- EER sample concatenation
 def sc_eer_concat(d, n, K, enc, with_eval):
     P = pl.pool()
@@ -351,6 +388,14 @@ HARNESSES = [
                               "skactiveml.pool._expected_error_reduction:ValueOfInformationEER._estimate_current_error",
                               "skactiveml.pool.utils:IndexClassifierWrapper.fit", "skactiveml.pool.utils:IndexClassifierWrapper.partial_fit"],
                  required_witnesses=("some_labeled",), product_abstraction=True, timeout_ms=30000, resample=20),
+    dual_harness("annotator_ensemble", sc_annot_ensemble,
+                 lambda tier: [dict(n=2, A=2, K=2, encs=e, voting=v) for v in ("hard", "soft")
+                               for e in ([PAIRS_Q[0]] if tier == "quick" else PAIRS_Q)],
+                 ["skactiveml.classifier.multiannotator._annotator_ensemble_classifier:AnnotatorEnsembleClassifier.fit",
+                  "skactiveml.classifier.multiannotator._annotator_ensemble_classifier:AnnotatorEnsembleClassifier.predict_proba",
+                  "skactiveml.base:SkactivemlClassifier._validate_data", "skactiveml.base:SkactivemlClassifier.predict",
+                  "skactiveml.utils._aggregation:compute_vote_vectors"],
+                 required_witnesses=("some_labeled",), product_abstraction=True, timeout_ms=30000),
     dual_harness("eer_concatenate_samples", sc_eer_concat,
                  lambda tier: [dict(n=2, K=2, enc=e, with_eval=w) for e in ENC for w in (False, True)], UNITS[8:10] + UNITS[16:17],
                  required_witnesses=("ran",)),
